@@ -13,8 +13,8 @@
    (llir prints integer constants without a type, so a mixed-width instruction whose wide operand is a LITERAL, e.g.
    `shl i8 %x, 3`, is accepted by LLVM and computes the right value; the check records these runs as
    reject_predicted_but_ran.)
-   The model mirrors the code that EXISTS: Byte durch Kommazahl converts the Byte with sitofp (compiler.go
-   1283) - see OpsProofs.div_byte_komma_refuted. *)
+   The model mirrors the code that EXISTS.  History: at the pinned commit Byte durch Kommazahl converted the Byte
+   with sitofp (refuted by 200 als Byte durch 2,0 = -28; repaired by 43c2135, model re-synchronised). *)
 From Coq Require Import ZArith Bool.
 From DDP Require Import Lang.Syntax Lang.F64.
 Open Scope Z_scope.
@@ -133,7 +133,7 @@ Definition lower_arith (i64op i8op fop : Z -> Z -> Z) (a b : mval) : lres :=
   | _, _ => LNone
   end.
 
-(* DURCH: compiler.go 1245-1295; note the Byte/Kommazahl cell *)
+(* DURCH: compiler.go 1245-1295 *)
 Definition lower_div (a b : mval) : lres :=
   match a, b with
   | MI64 x, MI64 y => LOk (MF64 (f_div (sitofp64 x) (sitofp64 y)))
@@ -143,7 +143,7 @@ Definition lower_div (a b : mval) : lres :=
   | MF64 x, MF64 y => LOk (MF64 (f_div x y))
   | MF64 x, MI8 y => LOk (MF64 (f_div x (uitofp8 y)))
   | MI8 x, MI64 y => LOk (MF64 (f_div (uitofp8 x) (sitofp64 y)))
-  | MI8 x, MF64 y => LOk (MF64 (f_div (sitofp8 x) y))      (* compiler.go 1283: NewSIToFP on the i8 *)
+  | MI8 x, MF64 y => LOk (MF64 (f_div (uitofp8 x) y))      (* uitofp since 43c2135 (was sitofp: 200/2,0 = -28) *)
   | MI8 x, MI8 y => LOk (MF64 (f_div (uitofp8 x) (uitofp8 y)))
   | _, _ => LNone
   end.
